@@ -21,12 +21,12 @@ def call(f, *a, **k):
 PROPERTY = "C19"
 RULE = ("1-3 sample buffers per case, 1-4 frames per buffer: DF17 with correct parity, DF20/21 (any AP), DF4/5/11, plus DF17 with 1-3 flipped bits (must be "
         "absent); pulse-position modulation at 2 samples/us behind the 8 us preamble, frame amplitude A in [0.3,1.4] with +-10% per-pulse jitter clipped to "
-        "that range, any start offset (both sample parities), gaps >= 240 samples and a >= 400-sample noise-only lead; every non-pulse sample is noise "
+        "that range, any start offset (both sample parities), gaps of at least one frame length (>= 112 samples behind a short frame, >= 224 behind a long one) and a >= 400-sample noise-only lead; every non-pulse sample is noise "
         "bounded by n = min(rho * A_min, 0.19) with rho in [0, 0.316) drawn per buffer (every pulse >= 10 dB above every noise sample of its buffer), shapes zero/constant/uniform/two-level; "
         "reader created by RtlReader() / RtlReader(debug=True) with a stand-in for the missing rtlsdr module; consecutive _process_buffer() calls share the running noise floor. Oracle: the returned hex strings "
         "are exactly the admissible transmitted frames, in order, upper case, right length; every returned DF17 has reference CRC 0. "
         "non-trivial = >= 2 frames of different length, odd start offset, rho > 0.1, or a corrupted DF17 present"
-        ' Also: the noise level is drawn per buffer, the last frame of a buffer may end anywhere up to the buffer end, and complex IQ samples of arbitrary phase are delivered through _read_callback in read-size pieces (leg iq_callback); buffers whose first 6.5-9 ms are packed with strong replies every 400 samples before a quiet stretch and weak frames, and buffers longer than buffer_size (direct call, or two equal reads that overshoot it) with a frame across sample index buffer_size (leg long_buffers).')
+        ' Also: the noise level is drawn per buffer, the last frame of a buffer may end anywhere up to the buffer end, and complex IQ samples of arbitrary phase are delivered through _read_callback in read-size pieces (leg iq_callback); buffers whose first 6.5-9 ms are packed with strong replies every 400 samples before a quiet stretch and weak frames, and buffers longer than buffer_size (direct call, or two equal reads that overshoot it) with a frame across sample index buffer_size (leg long_buffers); gaps down to one frame length (112 samples behind a short frame); one reader instance over 65 / 650 million samples of dense buffers (leg long_run).')
 ASSUMPTIONS = ["noise samples are additionally capped at 0.19: the preamble matcher accepts any sample >= 0.2 as a pulse, so stronger noise could legitimately "
                "look like a preamble and no threshold demodulator could be expected to reject it",
                "frames lie completely inside their buffer", "time stamps returned with the frames are ignored"]
@@ -110,7 +110,10 @@ def s_frame(draw):
     else:
         msg = "%014X" % frames.raw(draw(st.sampled_from([4, 5, 11])), draw(gen.ubits(27)), 56, draw(gen.ubits(24)))
     amp = draw(st.one_of(gen.ufloat(0.3, 1.4), gen.ufloat(0.3, 0.9), st.sampled_from([0.3, 1.4, 1.0])))
-    return {"msg": msg, "amp": amp, "jseed": draw(gen.ubits(32)), "gap": draw(st.one_of(st.sampled_from([240, 241]), gen.uint(240, 700)))}
+    # the gap behind a frame: at least one frame length of noise - 112 samples (56 us) behind a short frame, 224 behind a long one
+    least = len(msg) * 8
+    return {"msg": msg, "amp": amp, "jseed": draw(gen.ubits(32)),
+            "gap": draw(st.one_of(st.sampled_from([least, least + 1, least + 2, 240, 241]), gen.uint(least, 700), gen.uint(240, 700)))}
 
 
 @st.composite
@@ -305,7 +308,60 @@ def chk_long(case, note):
     return None
 
 
-LEGS = [Leg("long_buffers", chk_long, strategy=s_long, quick=64, thorough=1500,
+# ------------------------------------------------------------------ one reader for a long time: tens of seconds of signal through one instance
+def enum_longrun(ctx):
+    for k in range(ctx.nshards):
+        if ctx.mine(k):
+            yield {"samples": 65000000 if ctx.tier == "quick" else 650000000, "seed": ctx.rng("longrun", k).getrandbits(40)}
+
+
+def chk_longrun(case, note):
+    """A quiet first buffer lets the reader learn the noise floor; every later buffer is *dense* - short replies 112-190 samples apart, so that no
+    aligned 100 us window of it is free of pulses - and mixes strong and weak replies.  Only the floor learnt earlier lets the weak ones through,
+    whichever of the several hundred buffers the reader is at."""
+    import random
+    rng = random.Random(case["seed"])
+    rd = variants.make_reader(rtlreader.RtlReader)
+    nlevel = 0.05
+    quiet = {"lead": 3000, "items": [{"msg": "%014X" % frames.raw(4, rng.getrandbits(27), 56, rng.getrandbits(24)), "amp": 1.0, "jseed": 1, "gap": 3000}], "shape": "uniform", "nseed": rng.getrandbits(32)}
+    rd.signal_buffer = synth(quiet, nlevel)
+    r = call(rd._process_buffer)
+    if r[0] != "ok" or [m[0] for m in r[1]] != [quiet["items"][0]["msg"]]:
+        return "first (quiet) buffer: %r, transmitted %r" % (r, quiet["items"][0]["msg"])
+    kinds = []
+    for kind in range(6):      # six different dense buffers, used in rotation
+        items = []
+        tight = kind % 2 == 0   # every reply weak, one frame length apart, steady noise: the window means of such a buffer say nothing about the floor
+        for j in range(rng.randint(30, 60) if not tight else rng.randint(8, 30)):
+            items.append({"msg": "%014X" % frames.raw(rng.choice([4, 5, 11]), rng.getrandbits(27), 56, rng.getrandbits(24)),
+                          "amp": (rng.choice([0.3, 0.31, 0.33]) if tight else (rng.choice([0.3, 0.32, 0.4, 1.0, 1.4]) if j % 2 else rng.uniform(0.3, 1.4))),
+                          "jseed": rng.getrandbits(32), "gap": rng.randint(112, 118) if tight else rng.randint(112, 190)})
+        buf = {"lead": rng.randint(0, 60) if tight else rng.randint(0, 150), "items": items, "shape": "constant" if tight else "uniform", "nseed": rng.getrandbits(32)}
+        kinds.append((synth(buf, nlevel), [it["msg"] for it in items if admissible(it["msg"])]))
+    seen, nbuf, nfr = len(rd.signal_buffer) + 6000, 0, 0
+    while seen < case["samples"]:
+        samples, want = kinds[nbuf % len(kinds)]
+        rd.signal_buffer = list(rd.signal_buffer) + samples
+        r = call(rd._process_buffer)
+        if r[0] != "ok":
+            return "_process_buffer raised %r on buffer %d of one reader (%d samples processed before)" % (r[1:], nbuf + 1, seen)
+        got = [m[0] for m in r[1]]
+        if got != want:
+            miss = [m for m in want if m not in got]
+            return "buffer %d of one reader (%d samples processed before it; dense: replies 112-190 samples apart, amplitudes 0.3-1.4, noise up to %.2f): %d frames returned, %d transmitted; missing %r" % (
+                nbuf + 1, seen, nlevel, len(got), len(want), miss[:4])
+        seen += len(samples)
+        nbuf += 1
+        nfr += len(want)
+    note.evals = nfr
+    note.cls("long-run-%d-buffers" % nbuf)
+    note.nt(True, key=["longrun", case["seed"], case["samples"]])
+    return None
+
+
+LEGS = [Leg("long_run", chk_longrun, enum=enum_longrun, shards_quick=2, shards_thorough=4, exhaustive=False,
+            doc="one reader instance fed 65 million samples (thorough: 650 million) of dense buffers after a quiet first one: weak replies between strong ones are returned in every buffer"),
+        Leg("long_buffers", chk_long, strategy=s_long, quick=64, thorough=1500,
             doc="buffers whose first 6.5-9 ms are densely occupied by strong replies before weak frames; buffers longer than buffer_size with a frame across that index"),
         Leg("iq_callback", chk_iq, strategy=s_iq, quick=64, thorough=1200, doc="complex IQ samples through _read_callback (amplitude, buffering up to buffer_size, handle_messages)"),
         Leg("demodulate", chk_case, strategy=s_case, quick=5000, thorough=120000, doc="synthetic PPM buffers through RtlReader._process_buffer")]
